@@ -67,6 +67,8 @@ ListStep ==
   /\ cfg.kind = "list"
   /\ \/ \E t \in ListArgs : Rec(t[1], "", t[2], t[3], <<>>, ListOp(val, cfg.vm, cfg.lo, cfg.hi, t[1], t[2], t[3]))
      \/ \E c \in ListCands : Rec("assign", "", <<0, 0, 0>>, <<>>, <<c>>, ListAssign(val, cfg.vm, cfg.lo, cfg.hi, c))
+     \/ CaseMode /\ Rec("default", "", <<0, 0, 0>>, <<>>, <<>>, ListDefault(val, cfg.lo, cfg.hi))
+     \/ LenOK(0, cfg.lo, cfg.hi) /\ \E how \in {0, 1} : Rec("reset", "", <<how, 0, 0>>, <<>>, <<>>, ListReset(val, cfg.lo, cfg.hi))
 
 OuterArgs ==
        {<<"setitem", <<i, 0, 0>>, <<c>>>> : i \in Idx, c \in InnerCands}
